@@ -126,6 +126,65 @@ def creation(t):
     return {"agree": True, "why": None, "const": bool(r.constant)}
 
 
+class _Sub(np.ndarray):
+    pass
+
+
+class _HasArray:
+    def __init__(self, a):
+        self.a = a
+
+    def __array__(self, dtype=None, copy=None):
+        # (NumPy 2 protocol: copy=True obliges the container to copy, copy=None / False lets it hand out its own array)
+        r = self.a if dtype is None else self.a.astype(dtype, copy=False)
+        return r.copy() if copy else r
+
+
+def foreign(t):
+    """tensor(x) / Tensor(x) for inputs that numpy.asarray wraps without copying (ndarray subclasses, buffers, __array__ containers): the default and copy=True
+    give a tensor that does not see later changes of x; the values, and the dtype when requested, are x's"""
+    import array as _array
+    base = np.arange(1.0, 7.0)
+    src = t["src"]
+    if src == "recarray":
+        x = base.view(np.recarray)
+    elif src == "subclass":
+        x = base.view(_Sub)
+    elif src == "masked":
+        x = np.ma.masked_array(base)
+    elif src == "memoryview":
+        x = memoryview(base)
+    elif src == "array.array":
+        x = _array.array("d", base.tolist())
+        base = np.frombuffer(x, dtype=np.float64)
+    elif src == "__array__":
+        x = _HasArray(base)
+    else:
+        x = base[::1]
+    kw = {}
+    if t["copy"] is not None:
+        kw["copy"] = t["copy"]
+    if t["dtype"] is not None:
+        kw["dtype"] = np.float64 if t["dtype"] == "same" else np.float32
+    try:
+        r = getattr(mg, t["which"])(x, **kw)
+    except Exception as e:
+        return {"agree": False, "why": "raised %s: %s" % (type(e).__name__, str(e)[:80])}
+    want = np.arange(1.0, 7.0).astype(kw.get("dtype", np.float64))
+    if r.dtype != want.dtype or not np.array_equal(np.asarray(r.data), want):
+        return {"agree": False, "why": "values / dtype differ from the input's: %s %s" % (r.dtype, np.asarray(r.data).tolist())}
+    shares = bool(np.shares_memory(np.asarray(r.data), base))
+    if t["copy"] is not False and shares:
+        return {"agree": False, "why": "the tensor shares memory with its input although a copy was asked for (copy=%s)" % t["copy"]}
+    if src == "array.array":
+        x[0] = 99.0
+    else:
+        base[0] = 99.0
+    if t["copy"] is not False and float(np.asarray(r.data).ravel()[0]) != 1.0:
+        return {"agree": False, "why": "a later change of the input is visible in the tensor"}
+    return {"agree": True, "why": None, "shares": shares}
+
+
 def asarray_task(t):
     """mg.asarray(x, dtype, order) versus np.asarray on the underlying array: same object? shares memory? layout, dtype, values"""
     base = np.arange(12.0).reshape(3, 4).astype(t["dtype"])
@@ -183,6 +242,8 @@ def main():
                 out.append(creation(t))
             elif t["task"] == "asarray":
                 out.append(asarray_task(t))
+            elif t["task"] == "foreign":
+                out.append(foreign(t))
             else:
                 out.append(nonreal(t))
         except Exception:
